@@ -268,6 +268,11 @@ func checkRoundTrip(s Session, r *sessRun) *Violation {
 			v.Tag = "v1-setkeys-path-holds-whole-member"
 			return v
 		}
+		if len(s.RT.Keys) > 1 && setkeysPermutedIdentity(s, s.RT.Keys, s.RT.YAML) {
+			v := viol14("round-trip-status", p, e, "-setkeys %s: two members of one array hold the same key values under exchanged keys; the differ takes them for one member: `jd %s` then `jd %s` failed with status %d: %s (the same session passes when no key value can be mistaken for another key's)", strings.Join(s.RT.Keys, ","), strings.Join(s.Procs[0].Argv, " "), strings.Join(p.Argv, " "), res.Code, show(maskStamp(res.Stderr)))
+			v.Tag = "setkeys-permuted-identity"
+			return v
+		}
 		if where14(p, e)[:6] == "top-v1" && s.RT.Arrays != "list" && v1HashAliasing(s, cmpMode{Arrays: s.RT.Arrays, Eps: s.RT.Eps}) {
 			v := viol14("round-trip-status", p, e, "v1 library, arrays as %s: two different array members have the same v1 hash code, the diff addresses one through the other's identity: `jd %s` then `jd %s` failed with status %d: %s", s.RT.Arrays, strings.Join(s.Procs[0].Argv, " "), strings.Join(p.Argv, " "), res.Code, show(maskStamp(res.Stderr)))
 			v.Tag = "v1-set-hash-aliasing"
@@ -289,6 +294,11 @@ func checkRoundTrip(s Session, r *sessRun) *Violation {
 		if f0 := parseArgv(s.Procs[0].Argv); s.RT.Merge && f0.output != "" && strings.TrimSpace(string(r.FSPost[0].Files[r.FSPost[0].Resolve(f0.output)])) == "{}" {
 			v := viol14("round-trip-differs", p, e, "the merge patch `jd %s` wrote is {} (a non-object document becoming the empty object); `jd %s` then leaves the document unchanged: got %s, second input was %s", strings.Join(s.Procs[0].Argv, " "), strings.Join(p.Argv, " "), show(out), show([]byte(tgtText)))
 			v.Tag = "empty-object-merge-patch"
+			return v
+		}
+		if len(s.RT.Keys) > 1 && setkeysPermutedIdentity(s, s.RT.Keys, s.RT.YAML) {
+			v := viol14("round-trip-differs", p, e, "-setkeys %s: two members of one array hold the same key values under exchanged keys; the differ takes them for one member and one of them is lost: `jd %s` then `jd %s` produced %s, second input was %s (the same session passes when no key value can be mistaken for another key's)", strings.Join(s.RT.Keys, ","), strings.Join(s.Procs[0].Argv, " "), strings.Join(p.Argv, " "), show(out), show([]byte(tgtText)))
+			v.Tag = "setkeys-permuted-identity"
 			return v
 		}
 		if where14(p, e)[:6] == "top-v1" && s.RT.Arrays != "list" && v1HashAliasing(s, m) {
@@ -767,7 +777,15 @@ func uniqueKeyed(v *Val, keys []string) bool {
 				id.Elems = append(id.Elems, x)
 			}
 			for _, o := range ids {
-				if equalVals(o, id, cmpMode{Arrays: "set"}) {
+				// one identity = the same value under every key (which key
+				// holds which value matters)
+				same := true
+				for x := range keys {
+					if !equalVals(o.Elems[x], id.Elems[x], cmpMode{Arrays: "set"}) {
+						same = false
+					}
+				}
+				if same {
 					return false
 				}
 			}
@@ -921,6 +939,13 @@ func statusVsDocuments(s Session, r *sessRun, i int, pre *simos.FS) *Violation {
 	if equal && m.Eps > 0 && !equalOutsideArrays(a, b, m.Eps, false) {
 		v.Tag = "precision-inside-array"
 	}
+	if len(keys) > 1 {
+		// judged on this one process alone, with its inputs as files
+		s1 := Session{Files: []File{{"a", Blob(at)}, {"b", Blob(bt)}}, Procs: []ProcSpec{{Bin: p.Bin, Argv: append(append([]string(nil), p.Argv[:len(p.Argv)-len(f.args)]...), "a", "b")}}, Sector: 512}
+		if setkeysPermutedIdentity(s1, keys, f.yaml) {
+			v.Tag = "setkeys-permuted-identity"
+		}
+	}
 	if where14(p, e)[:6] == "top-v1" && m.Arrays != "list" {
 		s2 := Session{Files: []File{{"a", Blob(at)}, {"b", Blob(bt)}}, RT: &RoundTrip{Source: "a", Target: "b", YAML: f.yaml}}
 		if v1HashAliasing(s2, m) {
@@ -962,4 +987,117 @@ func roundTripWorksWithoutPrecision(s Session) bool {
 	r := runSession(s2, fsFromSession(s2.Files, s2.Dirs, s2.Links), false, false)
 	ok, _, _ := roundTripPromised(s2, r)
 	return ok && checkRoundTrip(s2, r) == nil
+}
+
+// permutedIdentities reports whether, in some array of v, two members that
+// carry all the keys hold the same key values taken together, but not key by
+// key: {"id":1,"ns":2} next to {"id":2,"ns":1}.
+func permutedIdentities(v *Val, keys []string) bool {
+	if v == nil || len(keys) < 2 {
+		return false
+	}
+	m := cmpMode{Arrays: "set"}
+	for _, c := range containers(v, nil) {
+		if c.K != 'a' {
+			continue
+		}
+		var ids [][]*Val
+		for _, e := range c.Elems {
+			if e.K != 'o' {
+				continue
+			}
+			var id []*Val
+			for _, k := range keys {
+				if x, ok := e.get(k); ok {
+					id = append(id, x)
+				}
+			}
+			if len(id) != len(keys) {
+				continue
+			}
+			for _, o := range ids {
+				same := true
+				for x := range id {
+					if !equalVals(o[x], id[x], m) {
+						same = false
+					}
+				}
+				if same {
+					continue
+				}
+				used := make([]bool, len(id))
+				matched := 0
+				for _, x := range o {
+					for j, y := range id {
+						if !used[j] && equalVals(x, y, m) {
+							used[j] = true
+							matched++
+							break
+						}
+					}
+				}
+				if matched == len(id) {
+					return true
+				}
+			}
+			ids = append(ids, id)
+		}
+	}
+	return false
+}
+
+// setkeysPermutedIdentity labels a failure of a -setkeys session with two or
+// more keys: it holds when a document of the session has members whose key
+// values are permutations of one another and the very same session passes
+// once every value of the second and later keys is wrapped into an object of
+// its own (so that no key value can be mistaken for another key's).
+func setkeysPermutedIdentity(s Session, keys []string, yaml bool) bool {
+	if len(keys) < 2 {
+		return false
+	}
+	s2 := s
+	s2.Files = append([]File(nil), s.Files...)
+	found := false
+	for i, f := range s2.Files {
+		v, err := parseDoc(string(f.Data), yaml)
+		if err != nil || v == nil {
+			continue
+		}
+		if permutedIdentities(v, keys) {
+			found = true
+		}
+		v = v.clone()
+		for _, c := range containers(v, nil) {
+			if c.K != 'a' {
+				continue
+			}
+			for _, e := range c.Elems {
+				if e.K != 'o' {
+					continue
+				}
+				for j, k := range keys {
+					if x, ok := e.get(k); ok && j > 0 {
+						e.set(k, &Val{K: 'o', Keys: []string{"of-" + k}, Vals: []*Val{x}})
+					}
+				}
+			}
+		}
+		s2.Files[i].Data = Blob(v.JSON(0))
+	}
+	if !found {
+		return false
+	}
+	if s.RT != nil {
+		rt := *s.RT
+		s2.RT = &rt
+	}
+	r := runSession(s2, fsFromSession(s2.Files, s2.Dirs, s2.Links), true, false)
+	pre := fsFromSession(s2.Files, s2.Dirs, s2.Links)
+	for i := range r.Res {
+		if statusVsDocuments(s2, r, i, pre) != nil {
+			return false
+		}
+		pre = r.FSPost[i]
+	}
+	return checkRoundTrip(s2, r) == nil
 }
